@@ -151,6 +151,7 @@ STAGE_TYPES = ["Requested", "Inactive", "Ready", "Started", "Locked", "State", "
 def _stage_shapes():
     sh = _shapes(ZC_FILES + ZA_FILES)
     problems = []
+    unknown = []
     bad_words = ("skip", "default", "flatten", "rename", "alias", "other", "tag", "untagged", "borrow", "getter", "remote", "from=", "into=")
     for ty in STAGE_TYPES:
         s = sh.get(ty)
@@ -165,7 +166,22 @@ def _stage_shapes():
             a2 = a.replace(" ", "")
             if any(w in a2 for w in bad_words) and "try_from=" not in a2:
                 problems.append("%s: serde attribute %s changes the stored shape" % (ty, a))
-    return {"ok": not problems, "what": "the five customer stage structs and every type they contain derive both Serialize and Deserialize and carry no skip/default/flatten/rename attribute",
+            m = re.search(r'try_from="([^"]+)"', a2)
+            if m:
+                twin = m.group(1)
+                known = dict(ROUTED).get(ty)
+                t = sh.get(twin)
+                if t is not None:
+                    # a positional format decodes the TWIN's field list: it must mirror the stored type field by field
+                    def norm(fs):
+                        return [(n, re.sub(r"Unchecked", "", ty_), sorted(x)) for n, ty_, x in fs]
+                    if norm(s["fields"]) != norm(t["fields"]):
+                        problems.append("%s is decoded through %s, whose fields/order/codecs differ: %s vs %s (a positional format restores the wrong fields)" % (ty, twin, s["fields"], t["fields"]))
+                if known != twin:
+                    unknown.append("%s: decode-time validator try_from = \"%s\" is not under contract (accepting exactly the values the program can store is undecided)" % (ty, twin))
+    if unknown and not problems:
+        raise Machinery("customer_state_shapes: " + "; ".join(unknown))
+    return {"ok": not problems, "what": "the five customer stage structs and every type they contain derive both Serialize and Deserialize, carry no skip/default/flatten/rename attribute, and any decode-time twin mirrors the stored fields in order",
             "detail": "; ".join(problems) if problems else "%d types checked" % len(STAGE_TYPES)}
 
 
